@@ -19,7 +19,7 @@ namespace boost{ namespace gil {
 using gray_alpha_t = mp11::mp_list<gray_color_t,alpha_t>;
 
 using gray_alpha_layout_t = layout<gray_alpha_t>;
-using alpha_gray_layout_t = layout<gray_alpha_layout_t, mp11::mp_list_c<int,1,0>>;
+using alpha_gray_layout_t = layout<gray_alpha_t, mp11::mp_list_c<int,1,0>>;
 
 BOOST_GIL_DEFINE_BASE_TYPEDEFS(8, uint8_t, alpha_gray)
 BOOST_GIL_DEFINE_BASE_TYPEDEFS(8s, int8_t, alpha_gray)
